@@ -142,13 +142,18 @@ def expected_path(mode, arrpath, basepath, filename='arrayvalues.bin'):
     return os.path.join(os.path.realpath(arrpath), filename)
 
 
-def layout(d):
-    """root/data/x.darr ; cwd for 'base' is root with basepath 'data/x.darr'; unrelated cwd for 'abs'."""
+NAMES = {None: ('data', 'x.darr'), 'unicode': ('d\u00e4t\u00e4 \u00fc', 'x \u00f6\u20ac.darr'), 'space-dash': ('-my data', 'x y.darr.'), 'cjk': ('\u6570\u636e', '\u043c\u0430\u0441\u0441\u0438\u0432.darr')}
+
+
+def layout(d, names=None):
+    """root/data/x.darr ; cwd for 'base' is root with basepath 'data/x.darr'; unrelated cwd for 'abs'.
+    names: other directory names (non-ASCII letters, spaces, a leading dash, a trailing dot)."""
+    dn, an = NAMES[names]
     root = os.path.join(d, 'root')
-    os.makedirs(os.path.join(root, 'data'))
+    os.makedirs(os.path.join(root, dn))
     other = os.path.join(d, 'elsewhere')
     os.mkdir(other)
-    return root, os.path.join(root, 'data', 'x.darr'), other
+    return root, os.path.join(root, dn, an), other
 
 
 def run_python_family(code, cwd):
@@ -202,6 +207,8 @@ def _exec_offer(ctx, spec):
 def _exec_prog(ctx, spec):
     import darr
     out = Outcome()
+    if spec.get('via'):          # (the symlink / relative-path layouts have names of their own)
+        spec = dict(spec, names=None, bp=None)
     t, bo, shape, lang, pm = spec['t'], spec['bo'], tuple(spec['shape']), spec['lang'], spec['pm']
     out.cls('lang:' + lang, 'path:' + pm, f'rank:{len(shape)}')
     if t.startswith('complex'):
@@ -217,9 +224,11 @@ def _exec_prog(ctx, spec):
         out.cls('large-array:>' + spec['large'])
     out.nontrivial = lang != 'darr'
     with ctx.scratch() as d:
-        root, apath, other = layout(d)
+        root, apath, other = layout(d, spec.get('names'))
         ref = gens.build_array(gens.mkdtype(t, bo), shape, {'m': 'dist', 's': spec.get('seed', 1)})
-        basepath = 'data/x.darr'
+        basepath = '/'.join(NAMES[spec.get('names')])
+        if spec.get('names'):
+            out.cls('path:unusual-directory-names')
         if spec.get('via') == 'base-symlink-dotdot' and pm == 'base':
             # base-relative path with a '..' directly behind a symlinked directory: root/deep/sl -> root/data/sub, so that
             # deep/sl/../x.darr is root/data/x.darr while a lexical collapse names the decoy root/deep/x.darr
@@ -237,6 +246,13 @@ def _exec_prog(ctx, spec):
             def __fspath__(self):
                 return self._p
         bparg = {0: basepath, 1: pathlib.Path(basepath), 2: basepath + '/', 3: _FsPath(basepath), 4: pathlib.PurePosixPath(basepath)}[spec.get('seed', 1) % 5]
+        bp = spec.get('bp')
+        if bp and pm == 'base':
+            # the base path is the directory of the array itself, written as '' / '.' / './' / Path('') / Path('.'): the code is then
+            # run there and has to name the data file like the relative form does
+            out.cls('basepath:current-directory:' + bp)
+            basepath = '.'
+            bparg = {'empty': '', 'dot': '.', 'dotslash': './', 'emptypath': pathlib.Path(''), 'dotpath': pathlib.Path('.')}[bp]
         if spec.get('seed', 1) % 5 == 3 and pm == 'base':
             out.cls('basepath:os.PathLike-object')
         churn = spec.get('churn')
@@ -305,9 +321,20 @@ def _exec_prog(ctx, spec):
         if code is None:
             out.nontrivial = False
             return out
-        cwd = {'rel': apath, 'base': root, 'abs': other}[pm]
+        cwd = {'rel': apath, 'base': apath if (spec.get('bp') and pm == 'base') else root, 'abs': other}[pm]
         cls = ('complex' if t.startswith('complex') else 'float16' if t == 'float16' else 'real') + (':rank>=3' if len(shape) >= 3 else '')
         tag = f'{lang}:{cls}' + (':empty' if empty else '')
+        if spec.get('legacy'):
+            # a directory as earlier versions of the library wrote it: no 'darrobject' entry in the description (the library opens
+            # such a directory); running the generated code must leave every file as it is
+            out.cls('legacy-description-without-darrobject')
+            import json as _json
+            dp = os.path.join(apath, 'arraydescription.json')
+            with open(dp) as f_:
+                dj = _json.load(f_)
+            dj.pop('darrobject', None)
+            with open(dp, 'w') as f_:
+                _json.dump(dj, f_, sort_keys=True, indent=4)
         before = snapshot(apath)
         if lang == 'darr' and "'path_to_data_dir'" not in code:
             out.cls('darr-placeholder-not-located')
@@ -412,6 +439,12 @@ def prog_specs(seeds=(1,)):
     for t, shape, lang in itertools.product(NUMTYPES, [(0,), (0, 3)], LANGS):
         yield {'f': 'prog', 't': t, 'bo': '<', 'shape': list(shape), 'lang': lang, 'pm': 'rel', 'seed': 1}
     yield from large_specs(thorough=len(seeds) > 1)
+    for t, lang, pm in itertools.product(['int16', 'float64'], LANGS, ['rel', 'abs']):
+        yield {'f': 'prog', 't': t, 'bo': '<', 'shape': [3, 2], 'lang': lang, 'pm': pm, 'seed': 5, 'legacy': True}
+    for t, lang, bp in itertools.product(['int16', 'float64', 'complex64'], LANGS, ['empty', 'dot', 'dotslash', 'emptypath', 'dotpath']):
+        yield {'f': 'prog', 't': t, 'bo': '<', 'shape': [3, 2], 'lang': lang, 'pm': 'base', 'seed': 5, 'bp': bp}
+    for t, lang, pm, names in itertools.product(['uint8', 'float32', 'complex128'], LANGS, PATHMODES, ['unicode', 'space-dash', 'cjk']):
+        yield {'f': 'prog', 't': t, 'bo': '>', 'shape': [2, 3], 'lang': lang, 'pm': pm, 'seed': 6, 'names': names}
 
 
 def large_specs(thorough):
@@ -439,7 +472,9 @@ def st_prog(draw):
     return {'f': 'prog', 't': draw(st.sampled_from(NUMTYPES)), 'bo': draw(st.sampled_from('<>')),
             'shape': [draw(st.integers(1, 6)) for _ in range(rank)], 'lang': draw(st.sampled_from(LANGS)),
             'pm': draw(st.sampled_from(PATHMODES)), 'seed': draw(st.integers(0, 2 ** 20)), 'churn': draw(st.sampled_from([None, None, True, 'ask-trunc-ask', 'ask-append-ask', 'change-and-ask-inside-context'])),
-            'via': draw(st.sampled_from([None, None, 'symlink-dotdot', 'relative', 'base-symlink-dotdot']))}
+            'via': draw(st.sampled_from([None, None, 'symlink-dotdot', 'relative', 'base-symlink-dotdot'])),
+            'names': draw(st.sampled_from([None, None, None, 'unicode', 'space-dash', 'cjk'])), 'bp': draw(st.sampled_from([None, None, None, None, 'empty', 'dot', 'dotslash', 'emptypath', 'dotpath'])),
+            'legacy': draw(st.sampled_from([False, False, False, True]))}
 
 
 def task_enum(ctx, col, shard, seeds):
